@@ -161,6 +161,8 @@ class World:
         if name == "S" and hs is not None:
             if o["ret"] > 0 and not hs.started:
                 hs.on_start(o)
+        elif name == "RNSTART" and hs is not None:
+            hs.on_start(o)
         elif name == "RD" and hs is not None:
             st = o["st"]
             if st in (1, 2):
@@ -181,6 +183,40 @@ class World:
             elif o["ret"] == EPIPE:
                 hs.par_open[0] = False
                 hs.epipe_seen[0] = True
+        elif name == "RA" and hs is not None:
+            st = o["st"]
+            if st in (1, 2):
+                hs.pipe_bytes[st] -= o["total"]
+                hs.received[st] += o["total"]
+                if o["ret"] == EPIPE:
+                    hs.par_open[st] = False
+                    hs.epipe_seen[st] = True
+        elif name == "WA" and hs is not None:
+            hs.stdin_occ += o["done"]
+            hs.stdin_accepted += o["done"]
+            if o["ret"] == EPIPE:
+                hs.par_open[0] = False
+                hs.epipe_seen[0] = True
+        elif name in ("DR", "RN") and hs is not None:
+            calls = o.get("_calls")
+            if calls is not None:
+                for c in calls:
+                    tag, size = c[1], c[2]
+                    if tag in (1, 2):
+                        hs.pipe_bytes[tag] -= size
+                        hs.received[tag] += size
+                        if size == 0:
+                            hs.par_open[tag] = False
+            if o["ret"] == 0 or name == "RN":
+                for p in (1, 2):
+                    if hs.par_open[p]:
+                        hs.received[p] += max(0, hs.pipe_bytes[p])
+                        hs.pipe_bytes[p] = 0
+                        hs.par_open[p] = False
+            if name == "RN":
+                if o["ret"] >= 0:
+                    hs.reaped = True
+                hs.destroyed = True
         elif name == "CL" and hs is not None:
             if o["ret"] == 0 and o["st"] in (0, 1, 2):
                 hs.par_open[o["st"]] = False
